@@ -151,8 +151,16 @@ class C13(runner.Check):
 		big = r.chance(0.25) and leg != "real"
 		maxw = 12 if big else 8
 		nT = r.randint(1, 8)
+		bigdb = leg == "sim" and r.chance(0.04)
+		if bigdb:
+			nT = r.randint(300, 900)        # a real motif database: many near-equal p-values
+			maxw = 8
+			big = False
 		tstyle = r.choice(["dirichlet", "mixed", "grid", "near", "mixed"])
-		targets = [_gen_motif(r, r.randint(1, maxw), tstyle) for _ in range(nT)]
+		if bigdb:
+			tstyle = "dirichlet"
+		targets = [_gen_motif(r, r.randint(1 if not bigdb else 4, maxw), tstyle)
+			for _ in range(nT)]
 		if nT >= 2 and r.chance(0.3):
 			# duplicated targets give exact p-value ties (n_nearest tie handling)
 			for _ in range(r.randint(1, max(1, nT // 2))):
@@ -167,6 +175,9 @@ class C13(runner.Check):
 		qstyle = "onehot" if onehot_pool else r.choice(["dirichlet", "mixed", "grid",
 			"near", "mixed"])
 		pool = [_gen_motif(r, w, qstyle) for w in lens]
+		if not onehot_pool and r.chance(0.4):
+			for j in r.sample(range(len(pool)), r.randint(1, max(1, len(pool) // 2))):
+				pool[j] = _gen_motif(r, lens[j], "onehot")
 		if onehot_pool and r.chance(0.6):
 			# seqlets containing unknown (all-zero, "N") columns, and twins that
 			# differ from another seqlet only by N-versus-A
@@ -214,9 +225,11 @@ class C13(runner.Check):
 			plan = _gen_plan(s, len(qs), Kmax)
 			call = {"kind": "annotate" if (onehot_pool and r.chance(0.6)) else "tomtom",
 				"queries": qs, "plan": plan,
-				"n_nearest": None if r.chance(0.6) else r.randint(1, nT),
+				"n_nearest": None if r.chance(0.6) else (r.randint(1, nT) if not bigdb
+					else r.randint(nT // 2, nT)),
 				"use_n_jobs": r.chance(0.2),
-				"layout": r.wchoice(["c", "f", "strided", "torch"], [5, 1, 1, 1])}
+				"layout": r.wchoice(["c", "f", "strided", "torch"], [5, 1, 1, 1]),
+				"qdtype_seed": r.subseed() if r.chance(0.5) else None}
 			if call["kind"] == "annotate" and call["n_nearest"] is None:
 				call["n_nearest"] = r.randint(1, nT)
 			calls.append(call)
@@ -319,6 +332,16 @@ class C13(runner.Check):
 			else:
 				lay = call.get("layout", "c")
 				Qarg = [self._lay(pool[q], lay) for q in qs]
+				if call.get("qdtype_seed") is not None:
+					# queries of one call need not share a dtype: 0/1-valued ones come as
+					# int8 / bool / float32, the others stay float64
+					import random as _random
+					rr = _random.Random(call["qdtype_seed"])
+					for i_, q in enumerate(qs):
+						a = pool[q]
+						if numpy.all((a == 0) | (a == 1)) and rr.random() < 0.7:
+							Qarg[i_] = a.astype(rr.choice(["int8", "bool", "float32"]))
+							out.bump("probe.query_dtype_mixed")
 				Targ = [self._lay(t, lay) for t in Ts]
 				fn = lambda: self.tt.tomtom(Qarg, Targ, n_nearest=nn, n_jobs=n_jobs, **kw)
 				out.bump("layout." + lay)
@@ -340,7 +363,7 @@ class C13(runner.Check):
 			out.bump("calls")
 			if call["kind"] == "tomtom":
 				for a, b in list(zip(Qarg, [pool[q] for q in qs])) + list(zip(Targ, Ts)):
-					if not numpy.array_equal(numpy.asarray(a), b):
+					if not numpy.array_equal(numpy.asarray(a).astype("float64"), b):
 						out.violate("input_modified", "call %d: tomtom modified one of its "
 							"input motifs" % ci, key="input_modified")
 						break
